@@ -299,7 +299,7 @@ fn gen_x(rng: &mut Rng) -> (Int, &'static str) {
         15 => (Int::from_nat(s.mul_small(8).add(&rand_below(rng, &s.mul_small(32)))), "x-large-8-40"),
         16 => { let k = rng.below(4); (Int::from_nat(s.mul_small(k)), "x-integer") }
         17 => (Int::from_i64(0), "x-zero"),
-        _ => { // negative arguments: outside the property's quantifier, kept for the model tie
+        _ => { // negative arguments (the statement says "bound dominates e^|x|"): same oracle, keys prefixed neg-x-
             let v = match rng.below(3) { 0 => rand_below(rng, &s.mul_small(12).div_small(10)), 1 => rand_below(rng, &s.mul_small(6)), _ => { let k = 1 + rng.below(34) as usize; Nat::from_dec(&rand_digits(rng, k)) } };
             (Int::from_nat(v).negate(), "x-negative")
         }
@@ -320,7 +320,8 @@ fn main() {
     let s = pow10(34);
 
     // 0. fixed inputs: the witness of Coq's exp_cmp_gt_refuted (x = isqrt(2*10^34*(10^10+1)),
-    //    compare = approx_2 + 1) and of exp_cmp_neg_x_refuted, boundary max_n.
+    //    compare = approx_2 + 1; KNOWN-FINDING gt-wrong-within-truncation-margin), the
+    //    negative-x input that failed before /repo commit f6d913e7 (corpus/C16), boundary max_n.
     {
         let x = Int::from_dec("14142135624438057269185");
         let c = Int::from_dec("10000000000014142135624448057269186");
@@ -389,7 +390,7 @@ fn main() {
                 match (a, b) {
                     (Out::Ok(a), Out::Ok(b)) if a.iterations == k && b.iterations == k + 1 => {
                         let err = b.approx.sub(&a.approx);
-                        let et = err.mul(&Int::from_i64(bound));
+                        let et = Int::from_nat(err.mag.clone()).mul(&Int::from_i64(bound)); // |error| * bound
                         let up = rng.bool();
                         let thr = if up { a.approx.add(&et) } else { a.approx.sub(&et) };
                         (thr.add(&Int::from_i64(rng.below(3) as i64 - 1)), if up { "cmp-at-upper-threshold" } else { "cmp-at-lower-threshold" })
